@@ -14,7 +14,7 @@ mkdir -p "$snap"
 trap 'git -C /repo worktree remove --force "$wt" >/dev/null 2>&1; rm -rf "$snap"' EXIT
 ( cd "$wt" && git apply "$patch" ) || { echo "patch does not apply"; exit 2; }
 # private copy of the check script's directory view: evidence and replays go to the snapshot
-cp -r /verif/check /verif/harness /verif/corpus /verif/known_findings.jsonl "$snap"/
+root="$(cd "$(dirname "$(readlink -f "$0")")/.." && pwd)"; cp -r "$root/check" "$root/harness" "$root/corpus" "$root/known_findings.jsonl" "$snap"/
 for p in "$@"; do
   out=$(cd "$snap" && VERIF_REPO="$wt" VERIF_WORKERS=${VERIF_WORKERS:-16} ./check "$p" ${TIER:-quick} 2>&1); rc=$?
   if [ $rc -eq 1 ]; then echo "DETECTED $p: $(echo "$out" | grep -A1 '^VIOLATION' | sed -n 2p | cut -c1-160)"
